@@ -32,7 +32,7 @@ Where the code still deviates (finding with counterexample; key as in the harnes
 * `pipeline/sibling-responses-lost` — `C06.sibling_responses_lost_counterexample`, restated here: "the
   remaining queries are served" fails for the siblings of a failing expanded query.
 Outside the model (the single-query function is a parameter): the harness oracle checks that out-of-range
-origin / destination ids are answered with an error (`search/unknown-origin-accepted`, repaired by 93e9e2f).
+origin / destination ids are answered with an error (`search/unknown-origin-accepted`, repaired by 7b74719).
 
 Partial: stack depth, allocation failure, the time a search takes on a huge network, the internals of
 serde_json / rstar / rayon are not modelled.
@@ -183,7 +183,7 @@ theorem failing_query_answered (plugins : List Plugin) (respond : Json → Json)
     (h : prepT plugins q = .error e) : answer plugins respond q = [e] := by
   simp [answer, h]
 
-/-- **A non-object query is echoed verbatim** (fix adb1ee2), whatever the plugins -/
+/-- **A non-object query is echoed verbatim** (fix 6b89952), whatever the plugins -/
 theorem non_object_query_echoed (plugins : List Plugin) (q : Json) (h : q.isObject = false) :
     prepT plugins q = .error (.obj [("request", q), ("error", .str "UnexpectedQueryStructure")]) :=
   prepT_non_object plugins q h
